@@ -931,9 +931,23 @@ def c15(ctx):
 CHECKS = {"C15": c15, "C10": c10, "C05": c05, "C07": c07, "C08": c08, "C18": c18, "C19": c19, "C17": c17, "C16": c16, "C02": c02, "C11": c11, "C06": c06, "C09": c09, "C01": c01, "C03": c03, "C04": c04, "C12": c12, "C13": c13, "C14": c14, "C20": c20}
 
 def replay(prop, path):
+    """Re-run the single call of a recorded finding against the current tree: exit 1 (VIOLATION line) when the call still gives the
+    recorded violating outcome, exit 0 when it no longer does."""
     f = json.load(open(path))
-    binary, _ = vlib.build_harness("debug" if f.get("profile") != "release" else "release")
-    p = subprocess.run([binary, "one", f["e"], f["input"]], stdout=subprocess.PIPE, text=True)
-    print(p.stdout.strip())
+    prof = f.get("profile") or "debug"
+    prof = "release" if prof == "release" else ("unopt" if prof.startswith("unopt") else "debug")
+    binary, _ = vlib.build_harness(prof)
+    cmd = [binary, "one-thread" if prof == "unopt" else "one", f["e"], f["input"]] + ([f["ph"]] if f.get("ph") and ":" in str(f.get("ph")) else [])
+    p = subprocess.run(cmd, stdout=subprocess.PIPE, stderr=subprocess.PIPE, text=True)
+    got = p.stdout.strip().rsplit(" ticks=", 1)[0] if p.stdout.strip() else "process died: rc=%s %s" % (p.returncode, p.stderr.strip()[-200:])
+    print("input:    eval_%s(%r, %s)" % (f["e"], f["input"], f.get("ph_show", f.get("ph"))))
     print("expected:", f.get("expected"))
+    print("recorded:", f.get("actual"))
+    print("now:     ", got)
+    recorded = str(f.get("actual", ""))
+    same = recorded.startswith(got) or (p.returncode != 0 and ("abort" in recorded or "PANIC" in recorded))
+    if same:
+        print("VIOLATION property=%s replay=%s" % (prop, path))
+        return 1
+    print("the recorded outcome is no longer produced")
     return 0
